@@ -34,6 +34,8 @@ type thread struct {
 	daemon  bool
 	steps   int
 	started bool
+	// set while the session's Observer runs on this thread
+	inObserver bool
 }
 
 const (
@@ -322,8 +324,13 @@ func (s *Session) finish(t *thread) {
 }
 
 func (s *Session) step(t *thread, op, detail string, ready func() bool, lock *Mutex) {
+	if t.inObserver {
+		return // harness code running inside the observer is not scheduled
+	}
 	if obs := s.Observer; obs != nil {
+		t.inObserver = true
 		obs(t.name, op, detail)
+		t.inObserver = false
 	}
 	s.mu.Lock()
 	t.op, t.detail, t.ready, t.lock = op, detail, ready, lock
@@ -345,8 +352,10 @@ func Step(op, detail string) {
 		return
 	}
 	if s.LabelOnly[op] {
-		if obs := s.Observer; obs != nil {
+		if obs := s.Observer; obs != nil && !t.inObserver {
+			t.inObserver = true
 			obs(t.name, op, detail)
+			t.inObserver = false
 		}
 		s.mu.Lock()
 		if len(s.Trace) < 4000 {
